@@ -71,7 +71,10 @@ def from_blackbird(bb: blackbird.BlackbirdProgram) -> Program:
                 # free parameters (and expressions of them) are written as strings
                 # such as "{a}" or "2*{a} + 0.1": turn them back into symbolic expressions
                 args = [
-                    sympy.sympify(re.sub(r"\{(\w+)\}", r"\1", a))
+                    sympy.sympify(
+                        re.sub(r"\{(\w+)\}", r"\1", a),
+                        locals={n: sympy.Symbol(n) for n in re.findall(r"\{(\w+)\}", a)},
+                    )
                     if isinstance(a, str) and re.search(r"\{\w+\}", a)
                     else a
                     for a in args
